@@ -109,7 +109,14 @@ func structuredSets(n int) []diagSet {
 	}
 	r = append(r, diagSet{"ends", []int{-(n - 1), n - 1}})
 	r = append(r, diagSet{"allbut0", all[1:]})
-	return r
+	// indices of one set must be distinct modulo n (n = 2: {-1, 1} names diagonal 1 twice)
+	var ok []diagSet
+	for _, d := range r {
+		if distinctModN(d.idx, n) {
+			ok = append(ok, d)
+		}
+	}
+	return ok
 }
 
 // outOfRangeSets: indices >= n and <= -n (normalisation modulo the dimension).
